@@ -346,6 +346,28 @@ def product_family():
             g.meta['family'] = 'product'; out.append(g)
     return out
 
+# ---------------------------------------------------------------- dynamic skipping (user override of predicate_skip)
+def dynskip_family():
+    """grammars whose parser callbacks override `predicate_skip`: an extra token NL that no rule mentions is skipped or not
+    as the environment decides call by call (e.g. line breaks that only count outside of brackets).  When it is not
+    skipped it is garbage for the grammar.  Evaluated for tree shape and termination only (C01, C02, C03)."""
+    texts = {
+        'toy': 's: A t* [D] E; t: B C;', 'nest': 's: x E; x: A y D; y: B z; z: C*;', 'opt_tail': 's: x E; x: A [B] ; ',
+        'create': 's: x E; x: <1 A [B 1>mk] D;', 'elide': 's: x E; x: A (B ^ | C);', 'pratt': 's: e E; e: e B e | e C | A;',
+        'choice': 's: x E; x: (A B / A C) D;', 'rename': 's: x E; x: A @rn [B];', 'part': 'part x; s: E x E; x: A B*;', 'call_end': 's: (x D)* E; x: A y; y: B | C;',
+    }
+    out = []
+    for n, body in texts.items():
+        for ws in (False, True):
+            toks = ' '.join(t for t in 'ABCDE' if re.search(r'\b' + t + r'\b', body))
+            txt = f'token {toks} NL{" Ws" if ws else ""}; {"skip Ws; " if ws else ""}start s; {body}'
+            try: g = parse_simple(txt, name=f'dynskip_{n}{"_ws" if ws else ""}')
+            except SyntaxError: continue
+            g.meta['family'] = 'dynskip'; g.meta['dynskip'] = 'NL'; g.meta['deep_sentences'] = 0
+            if ws: g.meta['bound_delta'] = -1
+            out.append(g)
+    return out
+
 # ---------------------------------------------------------------- feature pairs
 NODE_FEATURES = ('rename', 'renameopt', 'renameback', 'create', 'createopt', 'createloop', 'createanon', 'whole', 'action', 'callelided', 'ret')
 def pair_family(all_pairs=False, seed=0):
